@@ -32,6 +32,34 @@ def unparse(node: ast.AST | None) -> str:
         return ast.dump(node)
 
 
+def index_perm(e: ast.AST) -> tuple[str, tuple] | None:
+    """(base text, index tuple) of a re-ordering expression in any of its
+    spellings: ``[B[i] for i in (1, 0, 2)]``, ``tuple(...)`` around it, a
+    generator, or the explicit ``(B[1], B[0], B[2])``."""
+    while isinstance(e, ast.Call) and call_name(e) in ("tuple", "list") and \
+            len(e.args) == 1 and not e.keywords:
+        e = e.args[0]
+    if isinstance(e, (ast.ListComp, ast.GeneratorExp)) and len(
+            e.generators) == 1 and not e.generators[0].ifs:
+        g = e.generators[0]
+        if isinstance(g.target, ast.Name) and isinstance(
+                e.elt, ast.Subscript) and isinstance(
+                e.elt.slice, ast.Name) and e.elt.slice.id == g.target.id:
+            try:
+                idx = tuple(ast.literal_eval(g.iter))
+            except Exception:
+                return None
+            return unparse(e.elt.value), idx
+    if isinstance(e, (ast.Tuple, ast.List)) and e.elts and all(
+            isinstance(x, ast.Subscript) and isinstance(
+                x.slice, ast.Constant) and isinstance(x.slice.value, int)
+            for x in e.elts):
+        bases = {unparse(x.value) for x in e.elts}
+        if len(bases) == 1:
+            return bases.pop(), tuple(x.slice.value for x in e.elts)
+    return None
+
+
 def utext(node: ast.AST) -> str:
     """ast.unparse without the suffixes of names introduced by the inliner
     (multi-line; for whole-function text searches)."""
@@ -357,6 +385,34 @@ class Program:
             h.update(name.encode())
             h.update(self.modules[name].src.encode())
         return h.hexdigest()[:16]
+
+    def bind_call(self, caller: "FuncInfo", call: ast.Call
+                  ) -> tuple["FuncInfo | None", dict[str, ast.AST]]:
+        """Callee (module level function named by a plain name) and the
+        parameter -> argument expression binding of a call, positional and
+        keyword arguments alike; (None, {}) when not resolvable."""
+        f = call.func
+        if not isinstance(f, ast.Name):
+            return None, {}
+        target = self.functions.get(f"{caller.module.name}:{f.id}")
+        if target is None:
+            hits = [x for q, x in self.functions.items()
+                    if x.cls is None and x.name == f.id]
+            target = hits[0] if len(hits) == 1 else None
+        if target is None:
+            return None, {}
+        a = target.node.args
+        params = [x.arg for x in a.posonlyargs + a.args]
+        out: dict[str, ast.AST] = {}
+        for p_, x in zip(params, call.args):
+            if isinstance(x, ast.Starred):
+                return target, {}
+            out[p_] = x
+        for k in call.keywords:
+            if k.arg is None:
+                return target, {}
+            out[k.arg] = k.value
+        return target, out
 
     def stats(self) -> dict:
         return {
